@@ -142,13 +142,13 @@ TranslateModel(F, R, tx, ty, hr, wrapdev) ==
 S5  == {MinW, -1, 0, ONE, MaxW} \cup (IF Wide THEN {-5} ELSE {})
 S7  == {MinW, -5, -1, 0, 1, ONE, MaxW}
 S7z == S7 \cup {2 * ONE} \cup (IF Wide THEN {-ONE, 3} ELSE {})
-Sz  == {MinW, -1, 1, ONE, 2 * ONE, MaxW} \cup (IF Wide THEN {0, -5} ELSE {})
+Sz  == {MinW, -1, 1, ONE, MaxW} \cup (IF Wide THEN {0, -5, 2 * ONE} ELSE {})
 Sg  == {0, 1, MinW} \cup (IF Wide THEN {-1} ELSE {})
 Si  == {MinW, -1, 0, 1, ONE, MaxW} \cup (IF Wide THEN {2 * ONE} ELSE {})
-Sq  == {-ONE, 0, 1, ONE, 2 * ONE} \cup (IF Wide THEN {2} ELSE {})
+Sq  == {-ONE, 0, 1, ONE} \cup (IF Wide THEN {2, 2 * ONE} ELSE {})
 Words == MinW..MaxW
 SomeWords == IF Wide THEN (MinW..(MinW + 12)) \cup (-9..9) \cup ((MaxW - 24)..MaxW)
-             ELSE (MinW..(MinW + 5)) \cup (-4..4) \cup ((MaxW - 16)..MaxW)
+             ELSE (MinW..(MinW + 3)) \cup (-2..2) \cup ((MaxW - 12)..MaxW)
 
 \* parameter tuples: pa is chosen in the initial state, pb in the single step (worker parallelism)
 DomA(f) ==
